@@ -1,3 +1,17 @@
+//! vh-sync — C26 (sync import order / header checks / peer reports),
+//! C27 (batching partitions ranges), C28 (sync status describes the gap)
+//! on the real `fuel-core-sync` crate.
+mod c26;
+mod c27;
+mod c28;
+mod chain;
+
 fn main() {
-    mcx::machinery_failure("not built yet");
+    let cli = mcx::Cli::parse();
+    match cli.property.as_str() {
+        "C26" => c26::c26(&cli),
+        "C27" => c27::c27(&cli),
+        "C28" => c28::c28(&cli),
+        other => mcx::machinery_failure(&format!("vh-sync does not serve {other}")),
+    }
 }
